@@ -76,7 +76,10 @@ Definition track (m : mstate) (o : op) (ob : obs) (probes : list (option payload
   | OAuthorize a =>
       if ok then add (map (fun k => {| ci_kind := k; ci_client := az_client a; ci_family := base; ci_pair := None;
                                         ci_challenge := az_challenge a; ci_method := az_method a; ci_redirect := az_redirect a;
-                                        ci_scopes := az_granted a; ci_aud := az_gaud a; ci_subject := az_subject a; ci_issued := tnow; ci_decision := 0 |})
+                                        ci_scopes := az_granted a; ci_aud := az_gaud a; ci_subject := az_subject a; ci_issued := tnow;
+                                        (* codes: 1 = the client was registered for refresh_token when the authorization was given
+                                           (the code exchange reads the registration stored with the authorization request) *)
+                                        ci_decision := if client_has_grant m (az_client a) "refresh_token" then 1 else 0 |})
                          (o_minted ob))
       else add []
   | ORedeem _ code _ _ _ _ =>
@@ -122,7 +125,8 @@ Definition track (m : mstate) (o : op) (ob : obs) (probes : list (option payload
           (add (map (fun k => {| ci_kind := k; ci_client := ci_client pc; ci_family := base; ci_pair := None;
                                 ci_challenge := if String.eqb (ci_challenge pc) "" then az_challenge a else ci_challenge pc;
                                 ci_method := if String.eqb (ci_method pc) "" then az_method a else ci_method pc; ci_redirect := ci_redirect pc;
-                                ci_scopes := az_granted a; ci_aud := az_gaud a; ci_subject := az_subject a; ci_issued := tnow; ci_decision := 0 |}) (o_minted ob)))
+                                ci_scopes := az_granted a; ci_aud := az_gaud a; ci_subject := az_subject a; ci_issued := tnow;
+                                ci_decision := if client_has_grant m (ci_client pc) "refresh_token" then 1 else 0 |}) (o_minted ob)))
       | None => add (token_infos tnow base (o_minted ob) 0 base [] [] "")
       end
   | ODeviceAuth auth _ sc au =>
@@ -397,13 +401,15 @@ Definition judge_C05 (cfg : config) : judge_t := fun m o ob pr =>
           else (None, [], [])
       | None => (None, [], [])
       end
-  | ORedeem _ code _ _ _ _ =>
+  | ORedeem auth code _ _ _ _ =>
       match cred m code with
       | Some (i, c) =>
           if String.eqb (o_err ob) "" && existsb (fun k => ckind_eqb k KRefresh) (o_minted ob) then
             if negb (match cf_refresh_scopes cfg with [] => true | sc => args_has_one_of (ci_scopes c) sc end)
             then (Some "refresh_token_issued_without_a_refresh_scope", [], [])
-            else (None, [], [])
+            else if Nat.eqb (ci_decision c) 1 || match auth with Some a => client_has_grant m a "refresh_token" | None => false end
+                 then (None, [], [])
+                 else (Some "code_flow_issued_refresh_token_to_client_without_refresh_grant", [], [])
           else (None, [], [])
       | None => (None, [], [])
       end
@@ -479,7 +485,7 @@ Fixpoint minted_refresh_pos (l : list ckind) : option nat :=
 
 (* the expiry an introspection reports for a freshly minted token lies within half a second (rounding to whole
    seconds) of now + the client's override for exactly this grant and token type, else the server's default *)
-Definition life_ok (cfg : config) (cls : list client) (t : Z) (nprev : nat) (o : op) (ob : obs) (pr : list (option payload)) : bool :=
+Definition life_ok (jwt : bool) (cfg : config) (cls : list client) (t : Z) (nprev : nat) (o : op) (ob : obs) (pr : list (option payload)) : bool :=
   if String.eqb (o_err ob) "" then
     match minting_grant o with
     | Some (c, g) =>
@@ -490,7 +496,7 @@ Definition life_ok (cfg : config) (cls : list client) (t : Z) (nprev : nat) (o :
               | Some j => if Z.ltb life 0 then true   (* "unlimited": the handler leaves whatever expiry the session already carries *)
                           else match nth_error pr (nprev + j) with
                           | Some (Some pl) => match pl_exp pl with
-                                              | Some e => Z.leb (Z.abs (e - (t + life))) 500
+                                              | Some e => Z.leb (Z.abs (e - (t + life))) (if jwt then 999 else 500)   (* a JWT's exp claim is cut to whole seconds *)
                                               | None => Z.ltb life 0
                                               end
                           | _ => true
@@ -514,7 +520,7 @@ Fixpoint clock_from (jwt : bool) (cfg : config) (cls : list client) (t : Z) (npr
       if forallb (probe_unexpired t') pr
       then
         if negb (advertised_ok t' nprev ob pr) then Some "advertised_expires_in_differs_from_the_honoured_expiry"
-        else if negb (life_ok cfg cls t' nprev o ob pr) then Some "token_lifetime_differs_from_the_effective_lifespan_of_its_grant"
+        else if negb (life_ok jwt cfg cls t' nprev o ob pr) then Some "token_lifetime_differs_from_the_effective_lifespan_of_its_grant"
         else clock_from jwt cfg cls' t' (List.length pr) rest
       else if jwt && forallb (probe_unexpired_jwt t') pr then Some "jwt_access_token_honoured_within_the_second_after_its_expiry"
       else Some "token_reported_active_after_its_expiry"
